@@ -77,6 +77,105 @@ type Lab struct {
 
 	stops   []func()
 	serveWG sync.WaitGroup
+
+	// the lab's own view of every v2 contract element on the best chain
+	elemMu  sync.Mutex
+	elemTip types.ChainIndex
+	elems   map[types.FileContractID]types.V2FileContractElement
+}
+
+// trackElements follows the chain like the wallets do and keeps every v2
+// contract element with a current proof, independently of the Contractor.
+func (l *Lab) trackElements() {
+	l.elems = map[types.FileContractID]types.V2FileContractElement{}
+	l.elemTip = types.ChainIndex{}
+	reorgCh := make(chan struct{}, 1)
+	done := make(chan struct{})
+	update := func() {
+		for {
+			l.elemMu.Lock()
+			tip := l.elemTip
+			l.elemMu.Unlock()
+			reverted, applied, err := l.CM.UpdatesSince(tip, 1000)
+			if err != nil || (len(reverted) == 0 && len(applied) == 0) {
+				return
+			}
+			l.elemMu.Lock()
+			for _, cru := range reverted {
+				for _, d := range cru.V2FileContractElementDiffs() {
+					id := d.V2FileContractElement.ID
+					if d.Created {
+						delete(l.elems, id)
+					} else {
+						l.elems[id] = d.V2FileContractElement.Copy() // the element as it was before the block
+					}
+				}
+				for id, fce := range l.elems {
+					cru.UpdateElementProof(&fce.StateElement)
+					l.elems[id] = fce.Move()
+				}
+				l.elemTip = cru.State.Index
+			}
+			for _, cau := range applied {
+				for _, d := range cau.V2FileContractElementDiffs() {
+					id := d.V2FileContractElement.ID
+					switch {
+					case d.Resolution != nil:
+						delete(l.elems, id)
+					case d.Revision != nil:
+						fce := d.V2FileContractElement.Copy()
+						fce.V2FileContract = *d.Revision
+						l.elems[id] = fce
+					default:
+						l.elems[id] = d.V2FileContractElement.Copy()
+					}
+				}
+				for id, fce := range l.elems {
+					cau.UpdateElementProof(&fce.StateElement)
+					l.elems[id] = fce.Move()
+				}
+				l.elemTip = cau.State.Index
+			}
+			l.elemMu.Unlock()
+		}
+	}
+	go func() {
+		defer close(done)
+		for range reorgCh {
+			update()
+		}
+	}()
+	stop := l.CM.OnReorg(func(types.ChainIndex) {
+		select {
+		case reorgCh <- struct{}{}:
+		default:
+		}
+	})
+	l.stops = append(l.stops, func() {
+		stop()
+		close(reorgCh)
+		<-done
+	})
+}
+
+// Element returns the lab's own copy of a contract's element and the tip its
+// proof is valid for.
+func (l *Lab) Element(id types.FileContractID) (types.ChainIndex, types.V2FileContractElement, bool) {
+	l.elemMu.Lock()
+	defer l.elemMu.Unlock()
+	fce, ok := l.elems[id]
+	return l.elemTip, fce.Copy(), ok
+}
+
+// ContractorElementValid reports whether the element the Contractor hands out
+// for a contract is a member of the current element accumulator.
+func (l *Lab) ContractorElementValid(id types.FileContractID) error {
+	_, fce, err := l.Contractor.V2FileContractElement(id)
+	if err != nil {
+		return err
+	}
+	ts := l.CM.TipState()
+	return ts.Elements.ValidateTransactionElements(types.V2Transaction{FileContractRevisions: []types.V2FileContractRevision{{Parent: fce, Revision: fce.V2FileContract}}})
 }
 
 func keyFromSeed(seed uint64, tag byte) types.PrivateKey {
@@ -168,6 +267,7 @@ func New(o Options) (*Lab, error) {
 		l.Close()
 		return nil, err
 	}
+	l.trackElements()
 	l.Contractor = testutil.NewEphemeralContractor(l.CM)
 	l.stops = append(l.stops, func() { l.Contractor.Close() })
 	l.Sectors = testutil.NewEphemeralSectorStore()
@@ -252,7 +352,10 @@ func (l *Lab) Sync() error {
 		ht, _ := l.hostStore.Tip()
 		rt, _ := l.renterStore.Tip()
 		ct, _ := l.Contractor.Tip()
-		if ht == tip && rt == tip && ct == tip {
+		l.elemMu.Lock()
+		et := l.elemTip
+		l.elemMu.Unlock()
+		if ht == tip && rt == tip && ct == tip && et == tip {
 			return nil
 		}
 		if time.Now().After(deadline) {
@@ -287,6 +390,99 @@ func (l *Lab) PoolIDs() map[types.TransactionID]bool {
 		out[txn.ID()] = true
 	}
 	return out
+}
+
+// BroadcastRevision wraps a doubly signed revision of a contract into a v2
+// transaction (fee paid by the renter wallet) and puts it into the pool, the
+// way a renter or host publishes an off-chain revision. The contract element
+// comes from the Contractor, which keeps its proof current.
+func (l *Lab) BroadcastRevision(id types.FileContractID, rev types.V2FileContract) (types.TransactionID, error) {
+	if err := l.Sync(); err != nil {
+		return types.TransactionID{}, err
+	}
+	basis, fce, ok := l.Element(id)
+	if !ok {
+		return types.TransactionID{}, fmt.Errorf("contract %v is not on chain", id)
+	}
+	fee := types.Siacoins(1).Div64(50)
+	txn := types.V2Transaction{MinerFee: fee, FileContractRevisions: []types.V2FileContractRevision{{Parent: fce, Revision: rev}}}
+	wbasis, toSign, err := l.RenterWallet.FundV2Transaction(&txn, fee, true)
+	if err != nil {
+		return types.TransactionID{}, err
+	}
+	if wbasis != basis {
+		l.RenterWallet.ReleaseInputs(nil, []types.V2Transaction{txn})
+		return types.TransactionID{}, fmt.Errorf("wallet basis %v differs from contractor basis %v", wbasis, basis)
+	}
+	l.RenterWallet.SignV2Inputs(&txn, toSign)
+	// the fee may come from an unconfirmed output: submit the parents along
+	sbasis, set, err := l.CM.V2TransactionSet(basis, txn)
+	if err == nil {
+		_, err = l.CM.AddV2PoolTransactions(sbasis, set)
+	}
+	// the wallet's own reservation is dropped either way: while the transaction
+	// is pooled its inputs count as spent, and if a reorg un-confirms it for
+	// good they must be usable again
+	l.RenterWallet.ReleaseInputs(nil, []types.V2Transaction{txn})
+	if err != nil {
+		return types.TransactionID{}, err
+	}
+	return txn.ID(), nil
+}
+
+// OnChainRevisionNumber returns the revision number of the contract's element
+// as the Contractor tracks it from the chain.
+func (l *Lab) OnChainRevisionNumber(id types.FileContractID) (uint64, error) {
+	_, fce, ok := l.Element(id)
+	if !ok {
+		return 0, fmt.Errorf("contract %v is not on chain", id)
+	}
+	return fce.V2FileContract.RevisionNumber, nil
+}
+
+// Reorg replaces the last depth blocks by depth+1 empty blocks mined on their
+// common parent, and waits until all subscribers followed.
+func (l *Lab) Reorg(depth int) error {
+	tip := l.CM.Tip()
+	if uint64(depth) >= tip.Height {
+		return fmt.Errorf("reorg depth %d exceeds chain height", depth)
+	}
+	parent, ok := l.CM.BestIndex(tip.Height - uint64(depth))
+	if !ok {
+		return fmt.Errorf("no block at height %d", tip.Height-uint64(depth))
+	}
+	cs, ok := l.CM.State(parent.ID)
+	if !ok {
+		return fmt.Errorf("no state for %v", parent)
+	}
+	var blocks []types.Block
+	for i := 0; i <= depth; i++ {
+		b := types.Block{
+			ParentID:     cs.Index.ID,
+			Timestamp:    types.CurrentTimestamp(),
+			MinerPayouts: []types.SiacoinOutput{{Value: cs.BlockReward(), Address: types.VoidAddress}},
+			V2: &types.V2BlockData{
+				Height:       cs.Index.Height + 1,
+				Transactions: []types.V2Transaction{{ArbitraryData: []byte(fmt.Sprintf("reorg %v %d %d", tip.ID, depth, i))}},
+			},
+		}
+		b.V2.Commitment = cs.Commitment(types.VoidAddress, nil, b.V2Transactions())
+		if !coreutils.FindBlockNonce(cs, &b, 30*time.Second) {
+			return fmt.Errorf("%w: mining fork block", ErrWatchdog)
+		}
+		blocks = append(blocks, b)
+		// the state after an empty block, elements included (the manager only keeps
+		// header-level states for side-chain blocks); past the Oak hardfork the
+		// ancestor timestamp plays no role
+		cs, _ = consensus.ApplyBlock(cs, b, consensus.V1BlockSupplement{}, time.Time{})
+	}
+	if err := l.CM.AddBlocks(blocks); err != nil {
+		return fmt.Errorf("fork rejected: %w", err)
+	}
+	if got := l.CM.Tip(); got.ID != blocks[len(blocks)-1].ID() {
+		return fmt.Errorf("fork of %d blocks did not become the best chain (tip %v)", len(blocks), got)
+	}
+	return l.Sync()
 }
 
 // Quiesce waits for the handler-quiescence barrier.
